@@ -314,7 +314,7 @@ func vsLightWorld(s *verifsim.Sim) {
 
 	crand.Reader = vsSeedRand(s)
 	w := &vsLight{s: s, roots: map[string]*vsRootState{}, active: map[uint64]int{}}
-	w.count = []int{1, 2, 4, 5, 16, 20}[s.Choose(6, "sample_count")]
+	w.count = []int{1, 2, 4, 5, 16, 20, 40, 70}[s.Choose(8, "sample_count")]
 	nheights := s.Range(1, 3, "nheights")
 	ncallers := s.Range(1, 4, "ncallers")
 	faultFree := s.Chance(1, 8, "fault_free")
@@ -398,7 +398,11 @@ func vsLightWorld(s *verifsim.Sim) {
 				w.mu.Lock()
 				cancels = append(cancels, r)
 				w.mu.Unlock()
-				err := inst.SharesAvailable(ctx, hi.h)
+				// every call gets header objects of its own, as callers that load the header separately do
+				hc := *hi.h
+				dc := *hi.h.DAH
+				hc.DAH = &dc
+				err := inst.SharesAvailable(ctx, &hc)
 				cancel()
 				w.mu.Lock()
 				for i, x := range cancels {
